@@ -351,3 +351,63 @@ def c18(tier, seed):
         required_reach=["c18_cache_files", "c18_restarts", "c18_value_checks", "c18_cache_deps_of_restarts"],
         parallel=8 if tier == "quick" else 16,
     )
+
+
+@plan("C19")
+def c19(tier, seed):
+    nj, nc = (8, 60) if tier == "quick" else (32, 700)
+    return dict(
+        jobs=[dict(kind="comp19", n_cases=nc, **_seeds(seed, k)) for k in range(nj)],
+        level="exploration",
+        rule="generated DAGs (2..7 call sites, 0..2 DAG parameters with/without defaults, optional setup nodes run before or not, activation "
+        "flags, indexed and keyword uses) x 4 random (inputs, outputs) pairs: inputs = node subsets + DAG parameters or Ellipsis, outputs = "
+        "single alias or list; aliases drawn from {id, ExecNode, unique tag, shared (ambiguous) tag}; expected outcome from the monitor's own "
+        "rules (ambiguous alias / input depends on input (parameters are nodes of the dependency relation) / missing required input -> "
+        "ValueError); otherwise composed(values) == reference run of the original source with the input call sites overridden, executed set "
+        "== what the outputs need stopping at the inputs; the original's structure fingerprint, value and executed set are compared "
+        "before/after; distinct = distinct (program, inputs, outputs)",
+        assumptions=["inputs and outputs are disjoint (the overlap is called ambiguous in the source; DESIGN 6.8)"],
+        required_reach=["c19_composed_runs", "c19_valueerrors", "c19_original_unchanged_checks", "c19_input_used_as_activation_flag", "c19_input_used_indexed"],
+        parallel=8 if tier == "quick" else 16,
+    )
+
+
+# ------------------------------------------------------------------------------------------------ concurrency
+@plan("C16")
+def c16(tier, seed):
+    nj, nc = (8, 24) if tier == "quick" else (32, 240)
+    return dict(
+        jobs=[dict(kind="conc16", n_cases=nc, lockset=True, **_seeds(seed, k)) for k in range(nj)],
+        level="exploration",
+        rule="three workloads in rotation: (1) 2..16 threads x 1..3 calls of one generated DAG with distinct argument nonces (probes sleep 0..2 ms): "
+        "every call returns the reference for its own arguments and the per-execution monitors C02-C05 hold inside every execution token; "
+        "(2) thread A is paused INSIDE its describing function by a handshake (deterministic overlap) while thread B calls a shared DAG "
+        "(must return its reference value) and a decorated function outside any DAG (must raise / run / warn as configured) and thread C "
+        "builds another DAG: A's and C's DAG fingerprints (ids, attributes, references, constants, inputs, return shape, edges, priorities) "
+        "equal those built alone; (3) 2..8 threads build DAGs concurrently with switch interval 1e-6: fingerprints equal those built alone; "
+        "plus a lockset monitor: every access to the module-level build tables is made by the owner of the build lock; "
+        "distinct = distinct (workload, programs, thread count / pause point)",
+        assumptions=["setup nodes are excluded from the concurrent-call workload (the property says 'after its setup nodes have run')",
+                     "thread pre-emption inside tawazi is explored statistically (tiny switch interval), the build/call overlap deterministically"],
+        required_reach=["c16_concurrent_calls", "c16_build_overlaps", "c16_concurrent_builds", "c16_per_execution_monitor_runs", "c16_lockset_touches_checked"],
+        parallel=8 if tier == "quick" else 16, timeout=1200,
+    )
+
+
+@plan("C17")
+def c17(tier, seed):
+    nj, nc = (8, 15) if tier == "quick" else (32, 150)
+    return dict(
+        jobs=[dict(kind="async17", n_cases=nc, big=(tier != "quick"), op_watchdog_s=30, **_seeds(seed, k)) for k in range(nj)],
+        level="exploration",
+        rule="per case: (1) one generated program (2..8 call sites, all resources, flags, optional setup nodes) built as DAG and as AsyncDAG and "
+        "run under the controller or free: value, multiset of entered call sites and recorded setup results must be equal (and equal to the "
+        "reference); (2) 2..30 (thorough: ..100) concurrent awaits of one AsyncDAG gathered in one loop with distinct argument nonces: each "
+        "gets its own reference value, no call site entered twice in one execution; (3) an AsyncDAG whose pooled nodes are all async-thread "
+        "(+ main-thread) is awaited next to a sibling coroutine; every async-thread probe asks the loop to serve a handshake - a time-out "
+        "triggers 20 stack samples of the loop thread: all inside tawazi => the scheduler blocks the loop (violation), otherwise "
+        "inconclusive; distinct = distinct (program, number of awaits, liveness program)",
+        assumptions=["liveness clause excludes AsyncDAGs containing thread-resource nodes (documented blocking; DESIGN 6.7)"],
+        required_reach=["c17_flavour_pairs", "c17_concurrent_awaits", "c17_liveness_handshakes", "c17_liveness_served", "c17_setup_result_comparisons"],
+        parallel=8 if tier == "quick" else 16, timeout=1200,
+    )
